@@ -123,3 +123,11 @@ func (e Event) String() string {
 	}
 	return fmt.Sprintf("%s%v", e.Name, e.Args)
 }
+
+// LoopStarted waits until the client's publish loop has consumed the pause token
+// NewClient queued (lens reports len(pausech)).  Subscribing before that can run
+// into the lost wake-up recorded as C27.pause-overtakes-resume, which would only
+// disturb the set-up of the other properties' scenarios.
+func LoopStarted(lens func() (int, int, int, int)) bool {
+	return WaitFor(3*time.Second, func() bool { p, _, _, _ := lens(); return p == 0 })
+}
